@@ -260,8 +260,11 @@ func (c *fctx) calleeOracles(x *ast.CallExpr, callee *fnInfo) []string {
 
 func (c *fctx) rangeStmt(depth int, s *ast.RangeStmt, rest func(int) string) string {
 	kt, vt, isMap := mapKV(c.info.TypeOf(s.X))
+	if !isMap && isByteSlice(c.info.TypeOf(s.X)) {
+		return c.rangeBytes(depth, s, rest)
+	}
 	if !isMap {
-		c.failf(s, "range over %s (only maps, with the enumeration order as a parameter)", c.info.TypeOf(s.X))
+		c.failf(s, "range over %s (only maps, with the enumeration order as a parameter, and []byte)", c.info.TypeOf(s.X))
 	}
 	if s.Tok != token.DEFINE {
 		c.failf(s, "range statement that assigns existing variables")
